@@ -25,11 +25,13 @@ static sqf::runtime::runtime::result execute_do(sqf::runtime::runtime& runtime, 
         std::vector<sqf::runtime::frame> stacktrace_frames(context_active.frames_rbegin(), context_active.frames_rend());
         sqf::runtime::diagnostics::stacktrace stacktrace(stacktrace_frames);
 
-        // Try to find a frame that has recover behavior for runtime error
+        // Try to find a frame that has recover behavior for runtime error. A frame whose
+        // behavior refuses (try-catch only handles thrown values, a used up handler) does not
+        // swallow the error: it is left and the search continues further out.
         auto res = std::find_if(context_active.frames_rbegin(), context_active.frames_rend(),
             [](sqf::runtime::frame& frame) -> bool { return frame.can_recover_runtime_error(); });
 
-        if (res != context_active.frames_rend())
+        while (res != context_active.frames_rend())
         { // We found a recoverable frame
             stacktrace.value = std::make_shared<sqf::types::d_array>(log_messages.begin(), log_messages.end());
             // Push Stacktrace to value-stack
@@ -43,16 +45,20 @@ static sqf::runtime::runtime::result execute_do(sqf::runtime::runtime& runtime, 
             }
 
             // Recover from exception
-            context_active.current_frame().recover_runtime_error(runtime);
-            runtime_error = false;
-            return false;
+            if (context_active.current_frame().recover_runtime_error(runtime) != sqf::runtime::frame::result::error)
+            {
+                runtime_error = false;
+                return false;
+            }
+            context_active.clear_values();
+            context_active.pop_frame();
+            res = std::find_if(context_active.frames_rbegin(), context_active.frames_rend(),
+                [](sqf::runtime::frame& frame) -> bool { return frame.can_recover_runtime_error(); });
         }
-        else
-        { // No recover frame available, exit method
-            runtime.__logmsg(logmessage::runtime::Stacktrace(dinf, stacktrace));
-            runtime_error = false;
-            return true;
-        }
+        // No recover frame available, exit method
+        runtime.__logmsg(logmessage::runtime::Stacktrace(dinf, stacktrace));
+        runtime_error = false;
+        return true;
     };
     while (true)
     {
